@@ -134,6 +134,8 @@ pub fn run_tapes<F>(label: &str, seed: u64, shards: usize, cases: u32, max_len: 
 where
     F: Fn(&[u8], &mut Stats, bool) -> Result<(), Failure> + Sync,
 {
+    // developer aid for sensitivity experiments: let only the fuzz campaign search
+    let cases = if std::env::var("VERIF_ONLY_FUZZ").is_ok() { shards as u32 } else { cases };
     let per = (cases as usize + shards - 1) / shards;
     let results: Mutex<Vec<(Stats, Option<(Failure, Vec<u8>)>)>> = Mutex::new(Vec::new());
     let stop = AtomicBool::new(false);
